@@ -22,6 +22,8 @@ PARTS = HEAD + consts('INDEX_HEADER_SIZE', 'INDEX_ENTRY_SIZE', 'HEADER_MAGIC') +
     Raw('pub struct Lead { pub bytes: [u8; 96] }\n'),
     Decl(PKG, 'struct', 'PackageMetadata'),
     Decl(TYPES, 'struct', 'Scriptlet'),
+    Decl(HDR, 'struct', 'ChangelogEntry'),
+    Decl(TYPES, 'struct', 'Dependency'),
 ] + consts('PREIN_TAGS', 'POSTIN_TAGS', 'PREUN_TAGS', 'POSTUN_TAGS', 'PRETRANS_TAGS', 'POSTTRANS_TAGS', 'PREUNTRANS_TAGS', 'POSTUNTRANS_TAGS', 'VERIFYSCRIPT_TAGS') + [
     Raw('''
 pub assume_specification<T, E, F, O: FnOnce(E) -> Result<T, F>>[ Result::<T, E>::or_else ](r: Result<T, E>, op: O) -> (res: Result<T, F>)
@@ -50,22 +52,41 @@ impl PackageMetadata {
             Some(d) => r is Ok && r->Ok_0 == d,
             None => match get_u32(self.header, 1009) { Some(d) => r is Ok && r->Ok_0 == d, None => r is Err },
         },'''),
-    Raw('''
-    /// NOT under contract (multizip / from_iter / closures): the zipped dependency list as an
-    /// uninterpreted function of the header and the three tags read
-    #[verifier::external_body]
-    fn get_dependencies(&self, names_tag: IndexTag, flags_tag: IndexTag, versions_tag: IndexTag) -> (r: Result<Vec<Dependency>, Error>)
-        ensures r is Ok ==> r->Ok_0@ == deps_spec(self.header, names_tag as u32, flags_tag as u32, versions_tag as u32),
-            r is Ok <==> deps_ok(self.header, names_tag as u32, flags_tag as u32, versions_tag as u32),
-    { unimplemented!() }
-'''),
+    Fn(PKG, 'get_dependencies', impl='impl PackageMetadata',
+       subs=[ret(),
+             (re.compile(r'Err\(Error::TagNotFound\(_\)\)'), 'Err(Error::TagNotFound)', None, 'R5-error payload (the tag name) dropped'),
+             (re.compile(r'Vec::from_iter\(itertools::multizip\(\((\w+), (\w+), (\w+)\)\)\.map\(\s*\|\((\w+), (\w+), (\w+)\)\| Dependency \{(.*?)\},\s*\)\)', re.S),
+              r'zip3_map(\1, \2, \3, |\4: &String, \5: u32, \6: &String| -> (o: Dependency) ensures o.name@ == \4@ && o.flags.b == \5 && o.version@ == \6@ { Dependency {\7} })', 1,
+              'R41-Vec::from_iter(multizip((a, b, c)).map(f)); closure contract spliced'),
+             (re.compile(r'\b(name|version)\.to_owned\(\)'), r'string_to_owned(\1)', None, 'R12-to_owned'),
+             ],
+       spec='    ensures deps_read(self.header, names_tag.spec_to_u32(), flags_tag.spec_to_u32(), versions_tag.spec_to_u32(), r),'),
 ] + [Fn(PKG, f, impl='impl PackageMetadata', subs=[ret()],
-        spec='''    ensures r is Ok ==> r->Ok_0@ == deps_spec(self.header, %d, %d, %d),
-        r is Ok <==> deps_ok(self.header, %d, %d, %d),''' % (n, fl, v, n, fl, v))
+        spec='    ensures deps_read(self.header, %d, %d, %d, r),' % (n, fl, v))
      for f, n, fl, v in (('get_provides', 1047, 1112, 1113), ('get_requires', 1049, 1048, 1050),
                          ('get_conflicts', 1054, 1053, 1055), ('get_obsoletes', 1090, 1114, 1115),
                          ('get_recommends', 5046, 5048, 5047), ('get_suggests', 5049, 5051, 5050),
                          ('get_enhances', 5055, 5057, 5056), ('get_supplements', 5052, 5054, 5053))] + [
+    # ---- changelog: names, times and texts zipped in order -------------------------------------------------
+    Fn(PKG, 'get_changelog_entries', impl='impl PackageMetadata',
+       subs=[ret(),
+             (re.compile(r'Err\(Error::TagNotFound\(_\)\)'), 'Err(Error::TagNotFound)', None, 'R5-error payload (the tag name) dropped'),
+             (re.compile(r'Vec::from_iter\(itertools::multizip\(\((\w+), (\w+), (\w+)\)\)\.map\(\s*\|\((\w+), (\w+), (\w+)\)\| ChangelogEntry \{(.*?)\},\s*\)\)', re.S),
+              r'zip3_map(\1, \2, \3, |\4: &String, \5: u32, \6: &String| -> (o: ChangelogEntry) ensures o.name@ == \4@ && o.timestamp == \5 as u64 && o.description@ == \6@ { ChangelogEntry {\7} })', 1,
+              'R41-Vec::from_iter(multizip((a, b, c)).map(f)): element i is f(a[i], b[i], c[i]), up to the shortest list; closure contract spliced'),
+             (re.compile(r'\b(name|description)\.to_owned\(\)'), r'string_to_owned(\1)', None, 'R12-to_owned'),
+             ],
+       spec='''    ensures
+        match (get_strarr(self.header, 1081), get_u32arr(self.header, 1080), get_strarr(self.header, 1082)) {
+            // names, times, texts all stored: entry i is (name i, time i, text i), in order, up to the shortest list
+            (Some(n), Some(t), Some(d)) => {
+                &&& r is Ok
+                &&& r->Ok_0@.len() == min3(n.len() as int, t.len() as int, d.len() as int)
+                &&& forall|i: int| 0 <= i < r->Ok_0@.len() ==> (#[trigger] r->Ok_0@[i]).name@ == n[i]@ && r->Ok_0@[i].timestamp == t[i] as u64 && r->Ok_0@[i].description@ == d[i]@
+            },
+            _ => (r is Ok ==> r->Ok_0@.len() == 0),     // some tag missing or ill-typed: an error, or the empty list when all three are absent
+        },
+        (entry_of(self.header, 1081) is None && entry_of(self.header, 1080) is None && entry_of(self.header, 1082) is None) ==> r is Ok,'''),
     # ---- scriptlets: the read-back of what Scriptlet::apply emits (unit c06_blocks) ----------------------
     Fn(PKG, 'get_scriptlet', impl='impl PackageMetadata',
        subs=[ret(),
@@ -81,6 +102,16 @@ impl PackageMetadata {
                               ('get_pre_untrans_script', 5103, 5107, 5105, '%preuntrans'), ('get_post_untrans_script', 5104, 5108, 5106, '%postuntrans'),
                               ('get_verify_script', 1079, 5026, 1091, '%verifyscript'))] + [
     Raw('''}
+pub open spec fn min3(a: int, b: int, c: int) -> int { if a <= b && a <= c { a } else if b <= c { b } else { c } }
+/// R41: itertools::multizip over (&[A], Vec<B>, &[C]) mapped and collected
+#[verifier::external_body]
+pub fn zip3_map<R, F: Fn(&String, u32, &String) -> R>(a: &[String], b: Vec<u32>, c: &[String], f: F) -> (r: Vec<R>)
+    requires forall|x: &String, y: u32, z: &String| #[trigger] f.requires((x, y, z)),
+    ensures r@.len() == min3(a@.len() as int, b@.len() as int, c@.len() as int),
+        forall|i: int| 0 <= i < r@.len() ==> f.ensures((&a@[i], b@[i], &c@[i]), #[trigger] r@[i]),
+{ unimplemented!() }
+#[verifier::external_body]
+pub fn string_to_owned(s: &String) -> (r: String) ensures r@ == s@ { s.to_owned() }
 /// R5: bitflags type; only the bits matter
 pub struct ScriptletFlags { pub b: u32 }
 impl ScriptletFlags {
@@ -105,10 +136,25 @@ pub open spec fn scriptlet_read(h: Header<IndexTag>, t_script: u32, t_flags: u32
         },
     }
 }
-/// R5: Dependency is opaque here
-pub struct Dependency { pub id: u64 }
-pub uninterp spec fn deps_spec(h: Header<IndexTag>, n: u32, f: u32, v: u32) -> Seq<Dependency>;
-pub uninterp spec fn deps_ok(h: Header<IndexTag>, n: u32, f: u32, v: u32) -> bool;
+/// R5: bitflags type; only the bits matter
+pub struct DependencyFlags { pub b: u32 }
+impl DependencyFlags {
+    #[verifier::external_body]
+    pub fn from_bits_retain(bits: u32) -> (r: DependencyFlags) ensures r.b == bits { unimplemented!() }
+}
+/// what reading the dependencies of one kind must give: name i, flags i, version i of the three arrays stored under
+/// the tags of THAT kind, in order
+pub open spec fn deps_read(h: Header<IndexTag>, t_names: u32, t_flags: u32, t_versions: u32, r: Result<Vec<Dependency>, Error>) -> bool {
+    &&& match (get_strarr(h, t_names), get_u32arr(h, t_flags), get_strarr(h, t_versions)) {
+            (Some(n), Some(f), Some(v)) => {
+                &&& r is Ok
+                &&& r->Ok_0@.len() == min3(n.len() as int, f.len() as int, v.len() as int)
+                &&& forall|i: int| 0 <= i < r->Ok_0@.len() ==> (#[trigger] r->Ok_0@[i]).name@ == n[i]@ && r->Ok_0@[i].flags.b == f[i] && r->Ok_0@[i].version@ == v[i]@
+            },
+            _ => (r is Ok ==> r->Ok_0@.len() == 0),
+        }
+    &&& ((entry_of(h, t_names) is None && entry_of(h, t_flags) is None && entry_of(h, t_versions) is None) ==> r is Ok)
+}
 // vacuity canary: must FAIL
 pub fn canary_c05_acc(m: &PackageMetadata)
 {
@@ -122,7 +168,9 @@ OBLIGATIONS = {('PackageMetadata::' + f): (['C05', 'C06'] if f in ('get_name get
     'get_provides get_requires get_conflicts get_obsoletes get_recommends get_suggests get_enhances get_supplements '
     'get_name get_version get_release get_arch get_vendor get_url get_vcs get_license get_packager get_build_host '
     'get_cookie get_source_rpm get_summary get_description get_group get_epoch get_build_time get_installed_size').split()}
-for _f in ('get_scriptlet get_pre_install_script get_post_install_script get_pre_uninstall_script get_post_uninstall_script '
+for _f in ('get_dependencies get_changelog_entries get_scriptlet get_pre_install_script get_post_install_script get_pre_uninstall_script get_post_uninstall_script '
            'get_pre_trans_script get_post_trans_script get_pre_untrans_script get_post_untrans_script get_verify_script').split():
+    OBLIGATIONS['PackageMetadata::' + _f] = ['C05', 'C06']
+for _f in 'get_provides get_requires get_conflicts get_obsoletes get_recommends get_suggests get_enhances get_supplements get_build_host'.split():
     OBLIGATIONS['PackageMetadata::' + _f] = ['C05', 'C06']
 CANARIES = ['canary_c05_acc']
